@@ -135,6 +135,9 @@ def gen_cfg(r, P, aware, now, kind=None, for_once=False):
     if r.random() < 0.3:
         c["kwargs"] = [(k, r.randrange(100)) for k in sorted(r.sample(range(6), r.randrange(1, 3)))]
     if for_once:
+        c["tagkind"] = r.choice(["set", "set", "frozenset", "list", "tuple", "gen", "keys", "none"])
+        if c["tagkind"] == "none":
+            c["tags"] = []
         return c
     if r.random() < P.p_max:
         c["max"] = r.choice([1, 1, 2, 3, 7])
